@@ -307,9 +307,19 @@ def run(ctx):
             net["init_pos_std"] = [10.0, 10.0, 30.0, 5.0][ctx.shard]
             net["nsteps"] = max(net["nsteps"], 3)
             ctx.count("forced_multi_sensor_miss_nets")
-        if rng.random() < 0.3:
+        if i == 0 and ctx.shard == 4:
+            # forced once per run: one sensor re-tasked step after step on a geostationary target (its pointing hardly changes)
+            net["sensors"] = net["sensors"][:1]
+            net["sensors"][0].update({"kind": "adv_radar", "fov": "wide", "slew": 180.0})
+            net["targets"] = net["targets"][:1]
+            net["targets"][0].update({"radius": 42164.0, "geostationary": True, "off": [0.5, 0.5]})
+            net.update({"policy": "MunkresDecision", "nsteps": 4, "init_pos_std": 1e-3, "background": False})
+            net.pop("split_engines", None)
+            ctx.count("forced_geostationary_retasking_nets")
+        elif rng.random() < 0.3:
             # a geostationary target: a sensor tasked on it step after step keeps (almost) the same pointing
             net["targets"][0]["radius"] = 42164.0
+            net["targets"][0]["geostationary"] = True
             net["nsteps"] = max(net["nsteps"], 3)
             ctx.count("nets_with_a_geostationary_target")
         net["save_every"] = rng.choice([1, 1, 2, 3])
